@@ -130,6 +130,36 @@ def all_exprs(tree):
             yield from all_exprs(x)
 
 
+def ids_in_conditions(body, ident):
+    """the if/while conditions of the function that mention `ident`"""
+    out = []
+
+    def rec(stmts):
+        for st in stmts:
+            if st[0] == "if":
+                if ident in cn.ids_of(st[1]):
+                    out.append(st[1])
+                rec(st[2])
+                rec(st[3] or ())
+            elif st[0] == "while":
+                if ident in cn.ids_of(st[1]):
+                    out.append(st[1])
+                rec(st[2])
+    rec(list(body))
+    return out
+
+
+def cn_define_value(hpath, name):
+    import re
+    m = re.search(r"^\s*#\s*define\s+" + name + r"\s+(.+?)\s*$", open(hpath, encoding="latin-1").read(), re.M)
+    if not m:
+        raise ExtractFail(hpath, f"#define {name} not found")
+    txt = m.group(1).split("/*")[0].strip()
+    if not re.fullmatch(r"[0-9xXa-fA-F()<>|\s uUlL]+", txt):
+        raise ExtractFail(hpath, f"#define {name} {txt}: not a constant expression")
+    return int(eval(re.sub(r"(?<=[0-9a-fA-F])[uUlL]+", "", txt), {"__builtins__": {}}))
+
+
 def calls_of(body, fname):
     return [e for e in all_exprs(list(body)) if e[0] == "call" and e[1] == ("id", fname)]
 
@@ -515,6 +545,19 @@ def generate(repo):
         # no other file-system call may be made
         others = [h for h in ("mkdir", "rmdir", "unlink", "remove", "rename", "symlink", "readlink", "stat", "lstat", "link", "open", "creat", "chmod", "truncate")
                   if h not in host_names and calls_of(body, h)]
+        fs_decision = None
+        if fn == "wasiPathFilestatGet" and len(found) == 2 and not others:
+            # `if (lookupFlags & K) res = f(path, st); else res = g(path, st);` with {f, g} = {stat, lstat}
+            flagp = src.params(fn)[2]
+            for f1, f2 in (("stat", "lstat"), ("lstat", "stat")):
+                e = src.find(fn, f"if ({flagp} & $K) {{ $r = {f1}($p, $st); }} else {{ $r = {f2}($p, $st); }}")
+                if e is not None and e["st"] == ("id", src.params(fn)[5]):
+                    kv = e["K"][1] if e["K"][0] == "num" else cn_define_value(os.path.join(repo, "wasi", "wasi.h"), e["K"][1]) if e["K"][0] == "id" else 0
+                    if kv > 0:
+                        fs_decision = (kv, f1, f2)
+            if fs_decision is None or len(ids_in_conditions(body, flagp)) != 1:
+                raise ExtractFail(where, "two host calls, but not of the form `if (lookupFlags & K) res = stat(…) else res = lstat(…)`:\n" + src.text(fn)[:2500])
+            found = [f for f in found if f[0] == fs_decision[1]]
         if len(found) != 1 or others or len(found[0][1][2]) != nargs:
             raise ExtractFail(where, f"host call not recognised (found {[f[0] for f in found]}, others {others}):\n" + src.text(fn)[:2500])
         hname, call = found[0]
@@ -523,11 +566,21 @@ def generate(repo):
         if fn == "wasiPathCreateDirectory":
             w(f"def mkdirMode : Nat := 0o{num(call[2][1], where, 'mkdir mode'):o}")
         if fn == "wasiPathFilestatGet":
-            w("/-- path_filestat_get examines the resolved path with `stat` (follows a symbolic link in the last")
-            w("    component) or `lstat` (reports the link itself) -/")
-            w(f"def filestatHostCall : String := {lean_str(hname)}")
-            w("/-- …and does the choice (or anything else in the function) depend on the `lookupFlags` argument? -/")
-            w("def filestatUsesLookupFlags : Bool := " + ("true" if src.uses(fn, src.params(fn)[2]) else "false"))
+            flagp = src.params(fn)[2]
+            lf = cn_define_value(hpath, "WASI_LOOKUP_FLAGS_SYMLINK_FOLLOW")
+            w("/-- WASI_LOOKUP_FLAGS_SYMLINK_FOLLOW of wasi.h -/")
+            w(f"def lookupSymlinkFollow : Nat := {lf}")
+            w("/-- path_filestat_get examines the resolved path with `stat` (follows a symbolic link in the last component)")
+            w("    or `lstat` (reports the link itself); the decision as a function of the `lookupFlags` argument, as the")
+            w("    preprocessed source of this build (HAS_LSTAT resolved by the preprocessor) makes it -/")
+            if fs_decision is None:
+                if src.uses(fn, flagp):
+                    raise ExtractFail(where, f"`{flagp}` is used, but not in a recognised stat/lstat decision:\n" + src.text(fn)[:2500])
+                w(f"def filestatHostCallFor (lookupFlags : Nat) : String := {lean_str(hname)}")
+            else:
+                w(f"def filestatHostCallFor (lookupFlags : Nat) : String := if lookupFlags &&& {fs_decision[0]} ≠ 0 then {lean_str(fs_decision[1])} else {lean_str(fs_decision[2])}")
+            w("/-- does the function mention the `lookupFlags` argument at all? -/")
+            w("def filestatUsesLookupFlags : Bool := " + ("true" if src.uses(fn, flagp) else "false"))
         if fn == "wasiPathRename":
             # each guest path is resolved against the path of ITS OWN directory descriptor
             pr = src.params(fn)
